@@ -93,17 +93,22 @@ class ClassTable:
         self.flattened = flatten_objects(self) + specialise_class_constants(self) + fold_memo(self)
         positional_calls(self)
         self.inlined = inline_helpers(self)
+        from .canon import recanonicalise_function
         from .discriminant import fold_discriminants
 
-        self.flattened += fold_discriminants(self)
-        if self.inlined or self.flattened:
-            from .canon import recanonicalise_function
-
+        def again(stmt_level: bool):
             for ci in self.by_qual.values():
                 for fn in ci.methods.values():
-                    if self.flattened:
+                    if stmt_level:
                         recanonicalise_function(fn)
                     canonical_tree(fn)
+
+        if self.inlined or self.flattened:
+            again(True)
+        folded = fold_discriminants(self)
+        if folded:
+            self.flattened += folded
+            again(False)
 
     # ------------------------------------------------------------------ names
     def resolve_name(self, module: Module, expr: str) -> str:
